@@ -137,7 +137,7 @@ fn case_json(
 }
 
 fn pm(m: aho_corasick::Match) -> M {
-    (m.pattern().as_usize(), m.start(), m.end())
+    crate::cfg::mm(m)
 }
 
 pub fn check_one(
